@@ -7,6 +7,7 @@ from typing import Optional
 from typing import cast
 
 from markupsafe import Markup
+from markupsafe import escape
 
 from liquid import Expression
 from liquid import RenderContext
@@ -47,7 +48,8 @@ class BaseTranslateFilter:
     """
 
     name = "base"
-    re_vars = re.compile(r"(?<!%)%\((\w+)\)s")
+    # Matches an escaped percent sign or a `%(name)s` placeholder.
+    re_vars = re.compile(r"%%|%\((\w+)\)s")
     with_context = True
 
     def __init__(
@@ -73,12 +75,10 @@ class BaseTranslateFilter:
                     context.resolve(k), autoescape=context.env.autoescape
                 )
                 for k in self.re_vars.findall(message_text)
+                if k
             }
 
-        # Missing variables get replaced by the current `Undefined` type and we're
-        # converting all values to a string, so a KeyError or a ValueError should
-        # be impossible.
-        return message_text % _vars
+        return interpolate(self.re_vars, message_text, _vars)
 
     def _resolve_translations(self, context: RenderContext) -> Translations:
         return cast(
@@ -437,6 +437,23 @@ class NPGetText(BaseTranslateFilter, TranslatableFilter):
             funcname=self.name,
             message=((ctx.value, "c"), left.value, plural.value),
         )
+
+
+def interpolate(re_vars: "re.Pattern[str]", message_text: str, _vars: dict[str, str]) -> str:
+    """Replace `%(name)s` placeholders in _message_text_ and unescape `%%`.
+
+    Unlike `message_text % _vars`, any other percent sign is left as it is.
+    """
+
+    def _sub(match: "re.Match[str]") -> str:
+        name = match.group(1)
+        if not name:
+            return "%"
+        return escape(_vars[name]) if is_markup else _vars[name]
+
+    is_markup = isinstance(message_text, Markup)
+    text = re_vars.sub(_sub, message_text)
+    return Markup(text) if is_markup else text
 
 
 def _count(val: Any) -> Optional[int]:
